@@ -821,7 +821,11 @@ func (a *c11) r3() {
 					delete(s, "clean")
 				}
 			}
-			ast.Inspect(n, func(m ast.Node) bool {
+			var scope ast.Node = n
+			if rs, isLoop := n.(*ast.RangeStmt); isLoop {
+				scope = rs.X // header only; the body is walked statement by statement
+			}
+			ast.Inspect(scope, func(m ast.Node) bool {
 				if _, isLit := m.(*ast.FuncLit); isLit {
 					return false
 				}
@@ -1153,7 +1157,11 @@ func (a *c11) r4() {
 				}
 			}
 			// calls to impure package functions
-			ast.Inspect(n, func(m ast.Node) bool {
+			var scope ast.Node = n
+			if rs, isLoop := n.(*ast.RangeStmt); isLoop {
+				scope = rs.X
+			}
+			ast.Inspect(scope, func(m ast.Node) bool {
 				if _, isLit := m.(*ast.FuncLit); isLit {
 					return false
 				}
